@@ -183,6 +183,9 @@ Proof. unfold read_timestamp; tf. Qed.
 Lemma tframe_read_while : forall f p w, tframe (read_while f p w).
 Proof. induction f; intros; cbn [read_while]; tf. Qed.
 #[export] Hint Resolve tframe_read_while : tfr.
+Lemma tframe_read_operator_loop : forall f w, tframe (read_operator_loop f w).
+Proof. induction f; intros; cbn [read_operator_loop]; tf. Qed.
+#[export] Hint Resolve tframe_read_operator_loop : tfr.
 Lemma tframe_check_utf8 v : tframe (check_utf8 v).
 Proof. unfold check_utf8; tf. Qed.
 #[export] Hint Resolve tframe_check_utf8 : tfr.
@@ -239,6 +242,9 @@ Proof. unfold skip_timestamp; tf. Qed.
 Lemma tframe_skip_while : forall f p c, tframe (skip_while f p c).
 Proof. induction f; intros; cbn [skip_while]; tf. Qed.
 #[export] Hint Resolve tframe_skip_while : tfr.
+Lemma tframe_skip_operator_loop : forall f c, tframe (skip_operator_loop f c).
+Proof. induction f; intros; cbn [skip_operator_loop]; tf. Qed.
+#[export] Hint Resolve tframe_skip_operator_loop : tfr.
 Lemma tframe_skip_quoted_helper : forall f q, tframe (skip_quoted_helper f q).
 Proof. induction f; intros; cbn [skip_quoted_helper]; tf. Qed.
 #[export] Hint Resolve tframe_skip_quoted_helper : tfr.
@@ -845,11 +851,27 @@ Proof.
   pose proof (valid_read_while (t_fuel t) is_identifier_part [] ident_ascii eq_refl t) as H.
   destruct (read_while (t_fuel t) is_identifier_part [] t) as [[v t1]| | |]; auto. apply utf8_ascii, H.
 Qed.
+Lemma valid_read_operator_loop : forall f (w : list N),
+  forallb (fun c : N => (c <? 128)%N) w = true ->
+  forall t, match read_operator_loop f w t with Ok (v, _) => forallb (fun c : N => (c <? 128)%N) v = true | _ => True end.
+Proof.
+  induction f as [|f IH]; intros w Hw t; cbn [read_operator_loop]; [exact I|].
+  unfold mbind at 1. destruct (t_peek t) as [[c t1]| | |]; auto.
+  assert (Hret : forall t0, match ret (rev w) t0 with Ok (v, _) => forallb (fun c0 : N => (c0 <? 128)%N) v = true | _ => True end).
+  { intros t0. unfold ret. rewrite forallb_forall in *. intros x Hx. apply Hw. rewrite in_rev. exact Hx. }
+  destruct (is_operator_char c) eqn:P; [|apply Hret].
+  unfold mbind at 1.
+  match goal with |- match match ?m t1 with _ => _ end with _ => _ end => destruct (m t1) as [[stop t2]| | |]; auto end.
+  destruct stop; [apply Hret|].
+  unfold mbind. destruct (t_read t2) as [[c' t3]| | |]; auto. apply IH.
+  cbn [forallb]. rewrite Hw, andb_true_r. pose proof (operator_ascii c P). unfold byte_of.
+  rewrite Z.mod_small by lia. apply N.ltb_lt. lia.
+Qed.
 Lemma valid_read_operator : valid_out read_operator.
 Proof.
   intros t. unfold read_operator, with_fuel.
-  pose proof (valid_read_while (t_fuel t) is_operator_char [] operator_ascii eq_refl t) as H.
-  destruct (read_while (t_fuel t) is_operator_char [] t) as [[v t1]| | |]; auto. apply utf8_ascii, H.
+  pose proof (valid_read_operator_loop (t_fuel t) [] eq_refl t) as H.
+  destruct (read_operator_loop (t_fuel t) [] t) as [[v t1]| | |]; auto. apply utf8_ascii, H.
 Qed.
 
 (* ReadValue on a symbol or string token *)
